@@ -65,3 +65,11 @@ claim("C03",
       "cycle/carry arithmetic is not decided.",
       "Trusted: analysis/sym.py, analysis/abs*.py, specs/justifications.txt.",
       "DESIGN.md 5/C03")
+claim("C08",
+      "table comparison inside diff_months, copy/term-shape rules for every with_*, sibling rules, reachability, interval abstract interpretation",
+      "Decides: the month-length table used for the day clamp equals the calendar and its February cell is chosen by the *target* year's class; add/sub months pass "
+      "+/- the count; every with_* of NaiveDateTime replaces exactly one component and copies the other (DateTime's go through these, see C04); 0-based setters use "
+      "checked_add(1); years_since reads month, day (and time) of both operands; NaiveWeek::checked_* never reach the panicking operators; quarter / Month::num_days / "
+      "year_ce constants; no arithmetic, cast or index on these paths can trap (abstract interpretation). Value-level correctness of the n-th weekday and week bounds is not decided.",
+      "Trusted: specs/tables/calendar_oracle.py; analysis/sym.py; analysis/abs*.py; specs/justifications.txt.",
+      "DESIGN.md 5/C08")
